@@ -221,3 +221,147 @@ Proof. reflexivity. Qed.
 
 Lemma pix_label_spec i : pix_label i == inject_Z i * 1 + (0 + 1 / 2).
 Proof. unfold pix_label. field. Qed.
+
+(* ================================================================== Python slices *)
+Lemma range_pos a b st k : 0 < st -> a < b -> 0 <= k < (b - a - 1) / st + 1 -> a <= a + k * st < b.
+Proof.
+  intros Hs Hab Hk.
+  pose proof (Z.mul_div_le (b - a - 1) st Hs).
+  assert (k * st <= (b - a - 1) / st * st) by (apply Z.mul_le_mono_nonneg_r; lia).
+  nia.
+Qed.
+
+Lemma range_neg a b st k : st < 0 -> b < a -> 0 <= k < (a - b - 1) / (- st) + 1 -> b < a + k * st <= a.
+Proof.
+  intros Hs Hab Hk.
+  assert (Hs' : 0 < - st) by lia.
+  pose proof (Z.mul_div_le (a - b - 1) (- st) Hs').
+  assert (k * (- st) <= (a - b - 1) / (- st) * (- st)) by (apply Z.mul_le_mono_nonneg_r; lia).
+  nia.
+Qed.
+
+Lemma div_plus1_nonneg a st : 0 <= a -> 0 < st -> 0 <= a / st + 1.
+Proof. intros; pose proof (Z.div_pos a st); lia. Qed.
+
+Lemma slice_clamp_bounds n lo hi v : lo <= 0 -> n - 1 <= hi -> lo <= hi -> lo <= slice_clamp n lo hi v <= hi.
+Proof. intros; unfold slice_clamp; destruct (Z.ltb_spec v 0); lia. Qed.
+
+Lemma slice_len_spec start stop step : step <> 0 ->
+  0 <= slice_len start stop step /\
+  forall k, 0 <= k < slice_len start stop step ->
+    if step <? 0 then stop < start + k * step <= start else start <= start + k * step < stop.
+Proof.
+  intros Hs. unfold slice_len.
+  destruct (Z.ltb_spec step 0) as [Hneg|Hpos].
+  - destruct (Z.ltb_spec stop start) as [Hba|Hba].
+    + split; [apply div_plus1_nonneg; lia|]. intros k Hk. apply range_neg; auto.
+    + split; [lia|]. intros; lia.
+  - assert (0 < step) by lia.
+    destruct (Z.ltb_spec start stop) as [Hab|Hab].
+    + split; [apply div_plus1_nonneg; lia|]. intros k Hk. apply range_pos; auto.
+    + split; [lia|]. intros; lia.
+Qed.
+
+(** every index a slice selects is a valid position, whatever the bounds *)
+Lemma slice_adjust_spec n s start step m :
+  0 <= n -> slice_adjust n s = Ok (start, step, m) ->
+  step <> 0 /\ 0 <= m /\ forall k, 0 <= k < m -> 0 <= start + k * step < n.
+Proof.
+  intros Hn. unfold slice_adjust. cbv zeta.
+  destruct (Z.eqb_spec (match s_step s with Some v => v | None => 1 end) 0) as [|Hst]; [discriminate|].
+  intros E; injection E as Es Et Em. subst step.
+  set (st := match s_step s with Some v => v | None => 1 end) in *.
+  split; [exact Hst|].
+  destruct (Z.ltb_spec st 0) as [Hneg|Hpos]; rewrite Es in Em.
+  - assert (Ha : -1 <= start <= n - 1).
+    { subst start. destruct (s_start s); [apply slice_clamp_bounds|]; lia. }
+    set (b := match s_stop s with Some v => slice_clamp n (-1) (n - 1) v | None => -1 end) in *.
+    assert (Hb : -1 <= b <= n - 1).
+    { subst b. destruct (s_stop s); [apply slice_clamp_bounds|]; lia. }
+    destruct (slice_len_spec start b st Hst) as (H0 & Hr). rewrite Em in H0, Hr.
+    split; auto. intros k Hk. specialize (Hr k Hk).
+    destruct (Z.ltb_spec st 0); lia.
+  - assert (Ha : 0 <= start <= n).
+    { subst start. destruct (s_start s); [apply slice_clamp_bounds|]; lia. }
+    set (b := match s_stop s with Some v => slice_clamp n 0 n v | None => n end) in *.
+    assert (Hb : 0 <= b <= n).
+    { subst b. destruct (s_stop s); [apply slice_clamp_bounds|]; lia. }
+    destruct (slice_len_spec start b st Hst) as (H0 & Hr). rewrite Em in H0, Hr.
+    split; auto. intros k Hk. specialize (Hr k Hk).
+    destruct (Z.ltb_spec st 0); lia.
+Qed.
+
+(* ------------------------------------------------------------------ pick *)
+Lemma pick_map {A B} (g : A -> B) l idx : pick (map g l) idx = map g (pick l idx).
+Proof.
+  unfold pick. induction idx as [|i idx IH]; simpl; auto.
+  rewrite map_app, IH. f_equal.
+  destruct (i <? 0); auto. rewrite nth_error_map. destruct (nth_error l (Z.to_nat i)); reflexivity.
+Qed.
+
+Lemma pick_iota_in_range n idx : (forall i, In i idx -> 0 <= i < n) -> pick (iota n) idx = idx.
+Proof.
+  unfold pick. induction idx as [|i idx IH]; intros H; simpl; auto.
+  assert (Hi : 0 <= i < n) by (apply H; now left).
+  destruct (Z.ltb_spec i 0); [lia|].
+  rewrite nth_error_iota by lia. simpl. rewrite Z2Nat.id by lia. f_equal. apply IH; intros; apply H; now right.
+Qed.
+
+Lemma pick_incl {A} (l : list A) idx x : In x (pick l idx) -> In x l.
+Proof.
+  unfold pick. rewrite in_flat_map. intros (i & _ & Hx).
+  destruct (i <? 0); [contradiction|].
+  destruct (nth_error l (Z.to_nat i)) eqn:E; [|contradiction].
+  destruct Hx as [<-|[]]. eapply nth_error_In; eauto.
+Qed.
+
+(** arithmetic progressions of pixel indices are closed under positional slicing *)
+Definition ap (p q m : Z) : list Z := map (fun k => p + q * k) (iota m).
+Definition is_ap (idx : list Z) : Prop := exists p q m, 0 <= m /\ idx = ap p q m.
+
+Lemma is_ap_iota n : 0 <= n -> is_ap (iota n).
+Proof.
+  intros H; exists 0, 1, n; split; auto. unfold ap.
+  rewrite <- (map_id (iota n)) at 1. apply map_ext; intros; lia.
+Qed.
+
+Lemma zlen_ap p q m : 0 <= m -> zlen (ap p q m) = m.
+Proof. intros; unfold ap; rewrite zlen_map, zlen_iota; lia. Qed.
+
+Lemma pick_ap p q m s sidx : 0 <= m ->
+  slice_idx (zlen (ap p q m)) s = Ok sidx ->
+  exists start step m', 0 <= m' /\ step <> 0 /\
+    sidx = ap start step m' /\
+    (forall k, 0 <= k < m' -> 0 <= start + step * k < m) /\
+    pick (ap p q m) sidx = ap (p + q * start) (q * step) m'.
+Proof.
+  intros Hm. rewrite zlen_ap by auto. unfold slice_idx.
+  destruct (slice_adjust m s) as [[[start step] m']|e] eqn:E; simpl; [|discriminate].
+  intros H; injection H as <-.
+  destruct (slice_adjust_spec m s start step m' Hm E) as (Hs & Hm' & Hr).
+  exists start, step, m'. split; [auto|]. split; [auto|]. split; [|split].
+  - unfold ap; apply map_ext; intros; lia.
+  - intros k Hk. specialize (Hr k Hk). lia.
+  - unfold ap at 1. rewrite pick_map.
+    rewrite pick_iota_in_range.
+    + unfold ap. rewrite map_map. apply map_ext; intros; lia.
+    + intros i Hi. apply in_map_iff in Hi. destruct Hi as (k & <- & Hk). apply In_iota in Hk.
+      apply Hr; auto.
+Qed.
+
+Lemma axis_idx_ap d h : forall idx idx',
+  is_ap idx -> axis_idx d idx h = Ok idx' -> is_ap idx' /\ incl idx' idx.
+Proof.
+  induction h as [|o h IH]; intros idx idx' Hap; simpl.
+  - intros E; injection E as <-. split; auto. apply incl_refl.
+  - destruct o as [d' s | dims' gm' attrs'].
+    + destruct (String.eqb d' d); [|apply IH; auto].
+      destruct (slice_idx (zlen idx) s) as [sidx|e] eqn:E; simpl; [|discriminate].
+      intros H.
+      destruct Hap as (p & q & m & Hm & ->).
+      destruct (pick_ap p q m s sidx Hm E) as (start & step & m' & Hm' & _ & _ & _ & Hp).
+      destruct (IH (pick (ap p q m) sidx) idx') as (H1 & H2); auto.
+      * rewrite Hp. exists (p + q * start), (q * step), m'; auto.
+      * split; auto. intros x Hx. apply H2 in Hx. eapply pick_incl; eauto.
+    + apply IH; auto.
+Qed.
